@@ -202,6 +202,7 @@ func vTransOK(t pr.SDimensions) bool {
 // step is then the free length divided by the number of gaps, which is at least one — the pattern size handed
 // to the backend is a finite number.
 //@ func (drawContext).drawBackgroundImage
+//@   finite
 //@   props C14
 //@   modifies anything
 //@   unclaimed call-*-pre* "geometry accessors of a laid-out background layer"
